@@ -202,6 +202,30 @@ func isWrite(op string) bool {
 // Exec runs one command of the plan (and its twin, in twin modes).
 func (e *Engine) Exec(step int, cmd *Cmd) {
 	e.exec1(step, cmd, false)
+	if e.stop && e.Twin == "sdk" && cmd.C%2 == 0 && cmd.Op != "Poke" && len(e.res.Fails) == 0 && e.res.Quiet == "" && e.res.OtherRule != "" {
+		// the first SDK's answer broke another property's rule: the twin still
+		// gets the command, and a disagreement between the two is C17's
+		first := e.res.Steps[len(e.res.Steps)-1]
+		other := e.res.OtherRule
+		e.stop, e.res.OtherRule = false, ""
+		tw := cmd.clone()
+		tw.C, tw.ID = cmd.C+1, -cmd.ID-1000000
+		if tw.Op == "Open" || tw.Op == "Resume" {
+			tw.Walk = cmd.Walk + 1000000
+		}
+		e.exec1(step, tw, true)
+		second := e.res.Steps[len(e.res.Steps)-1]
+		e.stop = true
+		if len(e.res.Fails) == 0 {
+			e.res.OtherRule = other
+			if d := outcomeDiff(cmd, first.Out, second.Out); d != "" && !first.Skipped && !second.Skipped {
+				e.res.OtherRule = ""
+				e.res.Fails = []Fail{{"C17.eq", fmt.Sprintf("%s through %s and %s differ: %s", cmd.Op, e.W.SDKs[cmd.C], e.W.SDKs[cmd.C+1], d)}}
+				e.res.FailStep, e.res.FailCmd = step, cmd
+			}
+		}
+		return
+	}
 	if e.stop || e.Twin == "" || cmd.Op == "Poke" {
 		return
 	}
